@@ -1,4 +1,4 @@
-PENDING.update({k: "check not built yet at this commit (planned, see DESIGN.md section 5)" for k in ["C07","C10","C18"]})
+PENDING.update({k: "check not built yet at this commit (planned, see DESIGN.md section 5)" for k in ["C07","C18"]})
 check("C01", "exploration",
   "Seeded search: every run executes one (generated variant, operation, variables, resolver-outcome plan, release order) of servers generated at check time from /repo's templates, with each resolver/directive call parked and released by the scheduler, and compares data (key order kept) and the error multiset with an independent reference executor. Sampling, not proof; right level because the property is a refinement claim over an unbounded input space.",
   "Probe schemas instead of random schemas; reference executor + plan are the trusted model (parameters P1/P2 documented in DESIGN 3.5); gqlgen-authored messages matched by path only.",
@@ -39,3 +39,7 @@ check("C20", "fault_enumeration",
   "Seeded _entities requests over a federation probe generated at check time (single/alternative/nested keys, @requires, batch resolvers) with single and paired per-representation faults; every entity resolver call parks and completes in a tape-chosen order (incl. bursts under the race detector); element i must equal the echo computed from representation i alone or be null when it was faulted, neighbours must be untouched, RecoverFunc once per panic. Three genuine batch-resolver defects are recorded as known findings.",
   "Echo resolvers are harness code on both sides of the comparison; explicit/computed requires variants not generated.",
   "deterministic simulation: per-representation fault injection + completion-order search with an echo oracle", "5.20")
+check("C10", "fault_enumeration",
+  "Valid requests on every transport are subjected to one seeded fault each (stream cut/read error at a byte, re-chunking, Content-Length lie, structured JSON corruption; for uploads: size limits, spill files, temp dir failures, part order/dup/drop, map path corruption; for websocket: malformed frames); the recover hook must never fire (user code does not panic), the answer must be a well-formed GraphQL error or success, limits must hold, the private TMPDIR must be empty, well-formed uploads must deliver exact bytes to every mapped path.",
+  "Narrower than the statement's 'any bytes': structured faults around valid requests, not exhaustive fuzzing; disk-full / read-only directory not simulated.",
+  "deterministic simulation: stream/disk/frame fault injection with a no-recover + well-formedness oracle", "5.10")
